@@ -515,6 +515,23 @@ def check_measure_formula(ctx, rule: str):
             ctx.ob(rule, c, None if k in got else False, loc(fi), "formula not in monomial form" if k in got else "measure missing")
         else:
             ctx.ob(rule, c, g == w, loc(fi), "" if g == w else f"found {({a: str(e) for a, e in g.items()})}")
+    # n = number of observations of the very table whose groupings are measured
+    fa = repo.find_function(f"{F_BC}::BaseCarver._get_best_association")
+    adefs = single_defs(fa.node)
+    ms = calls(fa, "_association_measure")
+    gs = calls(fa, "_grouper")
+    okn = False
+    found = "?"
+    if len(ms) == 1 and len(gs) == 1 and gs[0].args:
+        tab = unparse(gs[0].args[0])
+        nv = kwarg(ms[0], "n_obs") or (ms[0].args[1] if len(ms[0].args) > 1 else None)
+        if nv is not None:
+            found = unparse(inline(fa.node, nv, defs=adefs)).replace(" ", "")
+            grouped = unparse(ms[0].args[0]) if ms[0].args else "?"
+            okn = any(found == f"{t}{suffix}" for t in (tab, grouped) for suffix in (".apply(sum).sum()", ".sum().sum()", ".values.sum()", ".to_numpy().sum()"))
+            okn = okn and tab in fa.params
+    ctx.ob(rule, construct(fa, "n_obs = total count of the crosstab that is grouped and measured"), okn, loc(fa, ms[0] if ms else None),
+           "" if okn else f"n_obs is `{found}`: measuring a table with the row count of another one (e.g. including the missing-value row) rescales every association stored in the history")
     fk = repo.find_function(f"{F_CONT}::ContinuousCarver._association_measure")
     rets = [r for r in walk_no_nested(fk.node) if isinstance(r, ast.Return) and isinstance(r.value, ast.Dict)]
     ok = len(rets) == 1 and unparse(rets[0].value).replace(" ", "") in ("{'kruskal':kruskal(*tuple(yval.values))[0]}", "{'kruskal':kruskal(*yval.values)[0]}", "{'kruskal':kruskal(*tuple(yval.values)).statistic}")
